@@ -17,7 +17,7 @@ output order: omit-tag guard, attributes left to right, then the content.
 from __future__ import annotations
 
 from .gen import BARE_NAME_EXISTS, RAISING_FORMS
-from .env import (EXISTS_CAUGHT, PIPE_CAUGHT, BadHtml, BadIter, BadSeq, Handler,
+from .env import (EXISTS_CAUGHT, PIPE_CAUGHT, BadBool, BadHtml, BadIter, BadSeq, Handler,
                   Html, Probe, default_marker, tcall_record)
 
 
@@ -139,7 +139,7 @@ class Model:
                 except PIPE_CAUGHT:
                     continue
         if k == "not":
-            return not self.ev(e["e"])
+            return not self.truth(self.ev(e["e"]))
         if k == "exists":
             try:
                 self.ev(e["e"])
@@ -206,6 +206,18 @@ class Model:
             return None if v is None else str(v)     # (a plain str again)
         return "".join(v if isinstance(v, str) else
                        ("" if v[1] is None else str(v[1])) for v in vals)
+
+    def truth(self, v) -> bool:
+        """The truth value of an expression's result - taking it can fail
+        (after the expression itself, pipes and all, has returned)."""
+        try:
+            return bool(v)
+        except BaseException as exc:
+            if isinstance(v, BadBool):
+                self.fail_stack[id(exc)] = list(self.use_stack)
+                self.fail_info[id(exc)] = (v.site, self.fn_depth)
+                self.fail_oid[id(exc)] = self.last_oid.get(v.site)
+            raise
 
     # -- value -> text -----------------------------------------------------------------
     def convert(self, v, escape):
@@ -455,7 +467,7 @@ class Model:
                 return
             switch_state["matched"] = True
         if n["condition"] is not None:
-            if not self.ev(n["condition"]):
+            if not self.truth(self.ev(n["condition"])):
                 return
         if n["repeat"] is not None:
             seq = self.ev(n["repeat"][1])
@@ -523,7 +535,7 @@ class Model:
             show_tag = False
         elif n["omit"] is not None and show_tag:
             self.guard_value.pop(n["eid"], None)
-            show_tag = not self.ev(n["omit"])
+            show_tag = not self.truth(self.ev(n["omit"]))
             self.guard_value[n["eid"]] = not show_tag
         if show_tag:
             self.out.append("<" + n["tag"])
